@@ -237,6 +237,8 @@ pub struct Movie {
     pub udta: Option<Vec<u8>>,
     pub has_mvex: bool,
     pub trex_track_ids: Vec<u32>,
+    /// per trex: (track id, default sample duration, size, flags)
+    pub trex_defaults: Vec<(u32, u32, u32, u32)>,
 }
 
 /// Structural problems found while decoding (C02 material).
@@ -685,6 +687,7 @@ pub fn decode_movie(buf: &[u8], tree: &[BoxNode], probs: &mut Problems) -> Movie
             let p = trex.payload(buf);
             if p.len() == 24 {
                 m.trex_track_ids.push(be32(p, 4));
+                m.trex_defaults.push((be32(p, 4), be32(p, 12), be32(p, 16), be32(p, 20)));
             } else {
                 probs.push(format!("trex: payload {} bytes, expected 24", p.len()));
             }
@@ -720,6 +723,10 @@ pub struct Fragment {
     pub trun_flags: u32,
     pub data_offset: Option<i32>,
     pub first_sample_flags: Option<u32>,
+    /// tfhd default sample duration / size / flags, where present
+    pub tfhd_default_duration: Option<u32>,
+    pub tfhd_default_size: Option<u32>,
+    pub tfhd_default_flags: Option<u32>,
     pub samples: Vec<FragSample>,
     pub moof_start: usize,
     pub moof_size: usize,
@@ -769,8 +776,24 @@ pub fn decode_fragment(buf: &[u8], tree: &[BoxNode], probs: &mut Problems) -> Op
                 probs.push(format!("tfhd payload {} bytes, flags {:#x} imply {}", p.len(), fl, need));
             } else {
                 f.track_id = be32(p, 4);
+                let mut o = 8;
                 if fl & 1 != 0 {
-                    f.base_data_offset = Some(be64(p, 8));
+                    f.base_data_offset = Some(be64(p, o));
+                    o += 8;
+                }
+                if fl & 2 != 0 {
+                    o += 4; // sample description index
+                }
+                if fl & 8 != 0 {
+                    f.tfhd_default_duration = Some(be32(p, o));
+                    o += 4;
+                }
+                if fl & 0x10 != 0 {
+                    f.tfhd_default_size = Some(be32(p, o));
+                    o += 4;
+                }
+                if fl & 0x20 != 0 {
+                    f.tfhd_default_flags = Some(be32(p, o));
                 }
             }
         } else {
@@ -841,7 +864,36 @@ pub fn decode_fragment(buf: &[u8], tree: &[BoxNode], probs: &mut Problems) -> Op
             probs.push("trun too short".into());
         }
     }
+    f.resolve(None);
     Some(f)
+}
+
+impl Fragment {
+    /// Fills in what the run does not state per sample, in the order ISO/IEC 14496-12 §8.8.8 gives:
+    /// per-sample value, the run's first-sample flags (sample 0 only), the tfhd default, the trex
+    /// default (duration, size, flags) of the init segment when the caller has it.
+    pub fn resolve(&mut self, trex: Option<(u32, u32, u32)>) {
+        let first = self.first_sample_flags;
+        let (dd, ds, df) = (self.tfhd_default_duration, self.tfhd_default_size, self.tfhd_default_flags);
+        for (k, s) in self.samples.iter_mut().enumerate() {
+            if s.duration.is_none() {
+                s.duration = dd.or(trex.map(|t| t.0));
+            }
+            if s.size.is_none() {
+                s.size = ds.or(trex.map(|t| t.1));
+            }
+            if s.flags.is_none() {
+                s.flags = if k == 0 && first.is_some() { first } else { df.or(trex.map(|t| t.2)) };
+            }
+            if s.cts.is_none() {
+                s.cts = Some(0);
+            }
+        }
+    }
+
+    pub fn unresolved(&self) -> bool {
+        self.samples.iter().any(|s| s.duration.is_none() || s.size.is_none() || s.flags.is_none())
+    }
 }
 
 // ---------------------------------------------------------------- structural checks (C02)
